@@ -18,7 +18,7 @@ AXIOMS = {
     'P3': 'forall(lambda p, q: implies(pow2p(p) and pow2p(q) and p < q, 2 * p <= q))',
     'P4': 'forall(lambda p, q: implies(pow2p(p) and p == 2 * q, pow2p(q)))',
     'P5': 'forall(lambda p, q, r: implies(pow2p(p) and pow2p(q) and r == p * q, pow2p(r)))',
-    'P6': 'pow2p(1)',
+    'P6': 'pow2p(1)', 'K10': 'pow2p(1024)', 'K23': 'pow2p(8388608)', 'K52': 'pow2p(4503599627370496)',
     # --- the denoted value is invariant under the three renormalisation steps of the class
     'V1': 'forall(lambda s, e, m, p, e2, p2: implies(e2 == e + 1 and p2 == 2 * p, val(s, e, m, p) == val(s, e2, m, p2)))',
     'V2': 'forall(lambda s, e, m, p, m2, p2: implies(m2 == 2 * m and p2 == 2 * p, val(s, e, m, p) == val(s, e, m2, p2)))',
@@ -150,3 +150,64 @@ hfunc(H, 'FPNum.compare', ['self', 'bref'], props=('C12',), refs=['self', 'bref'
       requires=_ADD_REQ('bref'), modifies=_MOD_NEW,
       # the order of the denoted rationals: -1 / 0 / 1
       ensures=['result == qcmp(old(%s), old(%s))' % (QV('self'), QV('bref'))] + _KEPT)
+
+
+# ------------------------------------------------------------------------------------------------ from IEEE-754 bit patterns
+# The unpackers are proved in the scalar mode (contracts/helpers2.py: field formulas); here they are used through that contract.
+def _from(fmt, ew, mw, bias, K):
+    top = (1 << ew) - 1; P = 1 << mw
+    callee('m:unpack_ieee754_%s_parts' % fmt, args=['v'], returns=3,
+           ensures=['result0 == (v >> %d) & 1' % (ew + mw), 'result1 == (v >> %d) & %d' % (mw, top), 'result2 == v & %d' % (P - 1),
+                    '0 <= result0 and result0 <= 1 and 0 <= result1 and result1 <= %d and 0 <= result2 and result2 < %d' % (top, P)])
+    def ens(v):
+        E = '((%s >> %d) & %d)' % (v, mw, top); M = '(%s & %d)' % (v, P - 1); S = '(1 if ((%s >> %d) & 1) == 0 else -1)' % (v, ew + mw)
+        return [  # a finite pattern denotes (-1)**s * 2**(e - bias) * (1 + m / 2**mw), a subnormal one (-1)**s * 2**(1 - bias) * m / 2**mw
+            'implies(%s != %d and %s != 0, %s == val(%s, %s - %d, %d + %s, %d))' % (E, top, E, QV('self'), S, E, bias, P, M, P),
+            'implies(%s == 0, %s == val(%s, %d, %s, %d))' % (E, QV('self'), S, 1 - bias, M, P),
+            'implies(%s != %d, %s)' % (E, top, FINITE('self')),
+            # all-ones exponent: infinity (zero mantissa) or NaN
+            'implies(%s == %d and %s == 0, self.infinity and self.s == %s)' % (E, top, M, S),
+            'implies(%s == %d and %s != 0, self.nan)' % (E, top, M)]
+    req = lambda v: ['0 <= %s and %s < %d' % (v, v, 1 << (1 + ew + mw))]
+    mod = ['f:s', 'f:e', 'f:m', 'f:p', 'f:infinity', 'f:nan']
+    hfunc(H, 'FPNum.from_ieee754_%s' % fmt, ['self', 'v'], props=('C12',), numeric_int=True,
+          uses=['m:unpack_ieee754_%s_parts' % fmt, 'm:set_semp', 'm:adjust_semp'], axioms=AX('P1', K),
+          requires=req('v') + ['not self.nan and not self.infinity'], modifies=mod,
+          ensures=ens('v') + [OTHERS(('s', 'e', 'm', 'p', 'infinity', 'nan'))])
+    callee('m:from_ieee754_%s' % fmt, args=['v'], requires=req('v') + ['not self.nan and not self.infinity'], modifies=mod,
+           ensures=ens('v') + [OTHERS(('s', 'e', 'm', 'p', 'infinity', 'nan'))])
+    # FPNum(v, '<fmt>')
+    hfunc(H, 'FPNum.__init__', ['self'], key='FPNum.__init__/2%s' % fmt, oid_suffix='/2%s' % fmt, varargs=2, props=('C12',),
+          uses=['m:set_semp', 'm:adjust_semp', 'm:convert_float_to_semp', 'm:from_ieee754_hp', 'm:from_ieee754_sp', 'm:from_ieee754_dp', 'm:adjust_sem'],
+          requires=req('args0') + ["args1 == '%s'" % fmt], modifies=_MOD_ALL,
+          ensures=ens('args0') + ['not self.inexact', OTHERS(FIELDS)])
+
+
+_from('hp', 5, 10, 15, 'K10'); _from('sp', 8, 23, 127, 'K23'); _from('dp', 11, 52, 1023, 'K52')
+
+
+# ------------------------------------------------------------------------------------------------ FixedPoint (raw encodings)
+_FX = ('sw', 'iw', 'fw', 'v')
+_FXW = lambda o: '(%s.sw + %s.iw + %s.fw)' % (o, o, o)
+_FMT_OK = lambda sw, iw, fw: '%s >= 0 and %s >= 1 and %s >= 0' % (sw, iw, fw)      # a zero integer width is refused by the constructor itself (negative shift)
+_FX_MOD = ['f:' + f for f in _FX]
+_ITF_REQ = [_FMT_OK('self.sw', 'self.iw', 'self.fw'), '0 <= v and v <= (1 << (self.iw - 1))']
+_ITF_ENS = ['self.v == (v << self.fw) %% (1 << %s)' % _FXW('self'), OTHERS(('v',))]
+hfunc(H, 'FixedPoint.intToFixedPoint', ['self', 'v'], props=('C12',), uf_mod=True, requires=_ITF_REQ, modifies=['f:v'], ensures=_ITF_ENS)
+callee('m:intToFixedPoint', args=['v'], requires=_ITF_REQ, modifies=['f:v'], ensures=_ITF_ENS)
+def _fx_init(a):
+    return ['self.sw == %s and self.iw == %s and self.fw == %s' % (a[0], a[1], a[2]),
+            'self.v == (%s << %s) %% (1 << (%s + %s + %s))' % (a[3], a[2], a[0], a[1], a[2]), OTHERS(_FX)]
+_FXI_REQ = lambda a: [_FMT_OK(a[0], a[1], a[2]), '0 <= %s and %s <= (1 << (%s - 1))' % (a[3], a[3], a[1])]
+hfunc(H, 'FixedPoint.__init__', ['self', 'sign_bit', 'int_bits', 'frac_bits', 'v'], props=('C12',), numeric_int=True, uf_mod=True,
+      uses=['m:intToFixedPoint', 'm:floatToFixedPoint'], requires=_FXI_REQ(['sign_bit', 'int_bits', 'frac_bits', 'v']), modifies=_FX_MOD,
+      ensures=_fx_init(['sign_bit', 'int_bits', 'frac_bits', 'v']))
+callee('new:FixedPoint/4', args=_B4, requires=_FXI_REQ(_B4), modifies=_FX_MOD, ensures=_fx_init(_B4))
+_FX_KEPT = ['forall(lambda o: implies(old(o.__alloc), o.__alloc and %s))' % ' and '.join('o.%s == old(o.%s)' % (f, f) for f in _FX)]
+for _name, _op in (('add', '+'), ('sub', '-')):
+    hfunc(H, 'FixedPoint.%s' % _name, ['self', 'b'], props=('C12',), refs=['self', 'b'], uses=['new:FixedPoint/4'], uf_mod=True,
+          requires=['isinstance(b, FixedPoint)', _FMT_OK('self.sw', 'self.iw', 'self.fw'), 'self.__alloc and b.__alloc'],
+          modifies=_FX_MOD + ['f:#alloc'],
+          # the raw encoding of the result is the sum / difference of the raw encodings modulo 2**w, in the format of self
+          ensures=['result.v == (old(self.v) %s old(b.v)) %% (1 << old(%s))' % (_op, _FXW('self')),
+                   'result.sw == old(self.sw) and result.iw == old(self.iw) and result.fw == old(self.fw)'] + _NEW + _FX_KEPT)
